@@ -168,35 +168,37 @@ class World:
         return Repository(backend, concurrent=concurrent or self.concurrent, quiet=True, cache_directory=cache)
 
     # ---- setup commands
-    def init(self, name='owner', password=b'pw-owner', settings_=None, cache=None):
+    def init(self, name='owner', password=b'pw-owner', settings_=None, cache=None, key_file=None):
+        """key_file: let replicat write the key there (--key-output-file) and use what is ON DISK afterwards - the key the user really gets"""
         repo = self.repo(cache=cache)
 
         async def go():
-            r = await repo.init(password=password, settings=settings_)
+            r = await repo.init(password=password, settings=settings_, **({'key_output_path': key_file} if key_file else {}))
             await repo.close()
             return r
         res, out_ = run(go())
         self.stdout_log = getattr(self, 'stdout_log', []) + [out_]
         u = User(name, password if res.key is not None else None, res.key, cache)
         if res.key is not None:
-            u.key = repo.serialize(res.key)
+            u.key = Path(key_file).read_bytes() if key_file else repo.serialize(res.key)
         self.users[name] = u
         self.config = res.config
         return u
 
-    def add_key(self, frm, name, password, *, shared=False, clone=False, settings_=None, cache=None):
+    def add_key(self, frm, name, password, *, shared=False, clone=False, settings_=None, cache=None, key_file=None):
         base = self.users[frm]
         repo = self.repo(cache=base.cache)
 
         async def go():
             if shared or clone:
                 await repo.unlock(password=base.password, key=base.key)
-            r = await repo.add_key(password=base.password if clone else password, settings=settings_, shared=shared or clone)
+            r = await repo.add_key(password=base.password if clone else password, settings=settings_, shared=shared or clone,
+                                   **({'key_output_path': key_file} if key_file else {}))
             await repo.close()
             return r
         res, out_ = run(go())
         self.stdout_log = getattr(self, 'stdout_log', []) + [out_]
-        u = User(name, base.password if clone else password, repo.serialize(res.new_key), cache)
+        u = User(name, base.password if clone else password, Path(key_file).read_bytes() if key_file else repo.serialize(res.new_key), cache)
         self.users[name] = u
         return u
 
